@@ -24,9 +24,11 @@ def run(ctx):
         rule=("non-trivial: the implementation released at least 2 tokens and the profile is not a flat rate over a whole "
               "number of seconds (steps always count); distinct = distinct case lines"),
         key_fn=key_fn,
-        translators=[],
-        bridge_files=[],
+        translators=[("sched", "SchedGen.v")],
+        bridge_files=["Gen/Sched_bridge.v"],
         trusted=[
+            "translator harness/cmd/translate sched (go/ast over NewConst, constDoAt, NewLine, lineDoAt, NewOnce, NewStep -> arithmetic AST of Model/SchedExpr.v; "
+            "local definitions inlined, integer vs float division decided from the declared parameter types)",
             "extraction: ExtrOcamlBasic only; OCaml driver ocaml/C01/main.ml + ocaml/common/conv.ml (zarith for decimal I/O)",
             "correspondence harness harness/cmd/hC01 (real schedule.NewConstConf/NewLineConf/NewStepConf/NewOnceConf, Start, Next, Left)",
         ],
